@@ -7,12 +7,20 @@
    number of words (Shaped.shaped_size) -- and never reaches a state rustc would have rejected;
    whatever it returns with Ok has the shape of the declared type.  Also: every reader of the
    runtime is total on every buffer, and the cursor never leaves the buffer.
-   PARTIAL: termination (the model's Fuel outcome) is not excluded by a theorem; it and the
-   model itself are tied to the code by K3 on hostile inputs (every truncation, boundary
-   words, random words, huge counts).  Native stack depth (finding F9) and allocator failure
-   cannot be exhibited by a Gallina model.
-   Proofs in XdrProofs.NoPanic / Shaped / MiscProofs / LedgerProofs. *)
-From XdrProofs Require Import MiscProofs LedgerProofs NoPanic.
+   C04_terminates: for every specification satisfying the decidable hypothesis term_b (sup4_b +
+   the named types can be ranked along their non-consuming references -- no type contains
+   itself except behind an optional link or a counted array -- + counted-array elements occupy
+   at least one word), every declared type and EVERY byte string, the decoder terminates: with
+   fuel (remaining/4)*(K+1)+K+1 (K = number of declared types) the model's Fuel outcome is
+   impossible, because every cycle of decoder calls reads a word first and every iteration of
+   the counted-array loop steps over at least a word.  The recursion depth is bounded by the
+   same expression -- linear in the input (finding F9: the native stack is not).
+   The model itself is tied to the code by K3 on hostile inputs (every truncation, boundary
+   words, random words, huge and wrapping counts).  Native stack depth (finding F9) and
+   allocator failure cannot be exhibited by a Gallina model.
+   Proofs in XdrProofs.NoPanic / Shaped / Termination / MiscProofs / LedgerProofs. *)
+From XdrProofs Require Import MiscProofs LedgerProofs NoPanic Termination.
+From XdrProps Require C01.
 Open Scope N_scope.
 Open Scope list_scope.
 
@@ -28,6 +36,43 @@ Theorem C04_no_panic :
       end.
 Proof. exact (fun A md Hg Hs n t fuel s Hget Hb => dec_safe A md Hg Hs fuel n t Hget s Hb). Qed.
 Print Assumptions C04_no_panic.
+
+(* termination, general form: any ranking rk of the named types along direct references, any
+   bound K on it, counted-array elements of positive size *)
+Theorem C04_terminates :
+  forall (A : ast) (md : module_ir) (rk : string -> nat) (K : nat),
+    gen A = EOk md -> sup4 A -> ranked A rk K -> elems_positive A md ->
+    forall (n : string) (t : ast_type) (s : st) (fuel : nat),
+      get_type A n = Some t -> bytes_ok (s_rem s) ->
+      (N.to_nat (remaining s / 4) * S K + K + 1 <= fuel)%nat ->
+      match dec md fuel n s with
+      | Ok v s' => ShN A n v /\ remaining s' <= remaining s
+      | Err _ _ => True
+      | Panic _ => False
+      | Fuel => False
+      end.
+Proof. exact (fun A md rk K Hg Hs Hr Hp n t s fuel => dec_terminates A md Hg Hs rk K Hr Hp n t s fuel). Qed.
+Print Assumptions C04_terminates.
+
+(* the same under the decidable hypothesis term_b, which the check evaluates on every
+   specification of the corpus (evidence: specs_satisfying_termination_hypothesis_term_b) *)
+Theorem C04_terminates_decidable :
+  forall (A : ast) (md : module_ir) (n : string) (t : ast_type) (s : st) (fuel : nat),
+    gen A = EOk md -> term_b A = true -> get_type A n = Some t -> bytes_ok (s_rem s) ->
+    (N.to_nat (remaining s / 4) * S (List.length (types A)) + List.length (types A) + 1 <= fuel)%nat ->
+    match dec md fuel n s with
+    | Ok v s' => ShN A n v /\ remaining s' <= remaining s
+    | Err _ _ => True
+    | Panic _ => False
+    | Fuel => False
+    end.
+Proof. exact terminates_b. Qed.
+Print Assumptions C04_terminates_decidable.
+
+(* non-vacuity: the recursive specification of C01.A_demo (a list whose nodes hold a counted
+   array of structs and an optional link to the next node) satisfies term_b *)
+Example C04_term_nonvacuous : term_b C01.A_demo = true.
+Proof. vm_compute. reflexivity. Qed.
 
 Theorem C04_sup4_decidable : forall A, sup4_b A = true -> sup4 A.
 Proof. exact sup4_b_sound. Qed.
